@@ -86,7 +86,13 @@ def _ser(w: World, style="inplace_ret", user_keys=False):
     def ser(node, data):
         w.fault.tick("mapper")
         extra = dict(USER_KEYS) if user_keys and not isinstance(node.data, str) else {}
-        if style == "new_bare":
+        if style == "new_data" and "data" in data and not isinstance(node.data, str):
+            # dict form only: a new dict that also sets "data" itself (the entry's
+            # "data" is then "as produced by the mapper")
+            new = dict(encode_value(node.data))
+            new["data"] = "M:" + str(node.data)
+            return new
+        if style in ("new_bare", "new_data"):
             # a new dict that holds the object's own fields only (what the shipped
             # DictWrapper.serialize_mapper does: `return node.data._dict.copy()`);
             # the fields nutree pre-filled (data_id, kind) are nutree's business
@@ -567,7 +573,11 @@ def _plan_restart_dict(w: World, op, si, mt, rt) -> Plan:
             for it, m in zip(items, mnodes):
                 if not isinstance(it, dict):
                     fail("dict-shape", "entry is not a dict")
-                if it.get("data") != str(m.data):
+                exp_data = str(m.data)
+                if use_mapper and op.get("mapper_style") == "new_data" \
+                        and not isinstance(m.data, str):
+                    exp_data = "M:" + str(m.data)  # as produced by the mapper
+                if it.get("data") != exp_data:
                     fail("dict-data", f"data {it.get('data')!r} for node {w.dkey(m.data)}")
                 custom = m.did != dhash(m.data)
                 if custom:
